@@ -52,6 +52,7 @@ SHAPE_NAMES = sorted(SHAPES)
 _MATERIALS = None
 NO_CORRELATION = []
 ZERO_T = {}
+NO_RANGE = set()
 
 
 def material_table():
@@ -118,6 +119,12 @@ def material_table():
                 except Exception:  # noqa: BLE001
                     pass
         ZERO_T[nm] = zero_t
+        if not fluidish and not any("expansion" in k_ and "volumetric" not in k_ for k_ in pv):
+            try:
+                m.linearExpansionPercent(Tc=0.0)
+                NO_RANGE.add(nm)
+            except Exception:  # noqa: BLE001
+                pass
         out.append((nm, fluidish, (round(lo, 2), round(hi, 2))))
     _MATERIALS = sorted(out)
     return _MATERIALS
@@ -134,6 +141,8 @@ def gen_plan(rng, index, tier):
     mname, fluidish, (lo, hi) = mats[(pair // len(SHAPE_NAMES)) % len(mats)]
     scale = rng.choice([0.5, 1.0, 1.0, 2.5])
     dims = {k: (v * scale if k not in ("mult", "nHoles") else v) for k, v in SHAPES[shape].items()}
+    if shape == "Helix" and rng.random() < 0.5:
+        dims["id"] = 0.4 * dims["od"]  # an annular wire
     tin = round(rng.uniform(lo, min(hi, lo + 0.3 * (hi - lo))), 2)
     npts = rng.randint(2, 8)
     path = [round(rng.uniform(lo, hi), 2) for _ in range(npts)]
@@ -159,7 +168,11 @@ def gen_plan(rng, index, tier):
     # questions asked along the way (the axial expansion changer, height factors ... ask for the
     # factor between two explicit temperatures): asking must not change any later answer
     for _ in range(rng.randint(0, 3)):
-        steps.insert(rng.randrange(len(steps) + 1), {"op": "factor", "T0": round(rng.uniform(lo, hi), 2), "Tc": rng.choice([None, None, round(rng.uniform(lo, hi), 2)])})
+        fq = {"op": "factor", "T0": round(rng.uniform(lo, hi), 2), "Tc": rng.choice([None, None, round(rng.uniform(lo, hi), 2)])}
+        if mname in NO_RANGE and rng.random() < 0.3:
+            # zero degrees is a temperature like any other (where the material states no validity range)
+            fq[rng.choice(["T0", "Tc"])] = 0.0
+        steps.insert(rng.randrange(len(steps) + 1), fq)
     cfg["path2"] = path2 + [path2_end]
     cfg["sharedDict"] = rng.random() < 0.4
     cfg["pinDetail"] = rng.choice([None, None, "pin", "detail", "both"])
@@ -376,6 +389,13 @@ def execute(plan):
             if not rel(got, want, 1e-12):
                 fail("C03.dimension", f"step {k}: expansion factor from {st['T0']} C to {Tc if Tc is not None else c.temperatureInC} C is {got}, the material's correlation gives {want}", what="factor-query")
             probes["factor_queries"] = probes.get("factor_queries", 0) + 1
+            if Tc is not None:
+                # the area asked for an explicit temperature is the cold area grown to that temperature
+                got_a = float(c.getArea(Tc=Tc))
+                want_a = float(c.getArea(cold=True)) * lin_factor(c, Tc, float(c.inputTemperatureInC)) ** 2
+                if not rel(got_a, want_a, 1e-10):
+                    fail("C03.dimension", f"step {k}: getArea(Tc={Tc}) = {got_a}, the cold area grown by the material's factor to that temperature is {want_a}", what="area-at-Tc")
+                probes["area_queries_at_explicit_temperature"] = probes.get("area_queries_at_explicit_temperature", 0) + 1
             log.add("factor", st["T0"], Tc)
             check(f"step {k} (after asking for the factor from {st['T0']} C)")
         elif st["op"] == "setmult":
